@@ -20,14 +20,23 @@ from . import ibmrun, geom
 RULE = ("every attribute form (scalar incl. numpy scalars; list of length num with integral, fractional (uniform(-50,50), 0.5, -0.0, "
         "1e-12, 1e9+0.5) or int elements; [low, high] with integral, fractional or int ends; gaussian with/without min/max; "
         "exponential with/without max; piecewise with/without the documented optional key `degree` in {1,2,3}; callable "
-        "(lambda returning an array, lambda returning a list, callable object); dotted name with one dot (numpy.arange) and with "
-        "two dots (a recording probe function of this module)) x num in {1,2,3,5,17} x parameter grids (float and int typed "
+        "(lambda returning an array, lambda returning a list, callable object, lambda returning values in no particular order); dotted "
+        "name with one dot (numpy.arange) and with two dots (recording probe functions of this module, one returning increasing "
+        "values, one returning values in no particular order)) x num in {1,2,3,5,17} x parameter grids (float and int typed "
         "parameters as in release.yaml; std in {0, 0.1, 1, 2.5, 10, 1e3}; gaussian mean up to 1e6 and negative; exponential mean in "
-        "{0, 0.01, 1, 5, 10, 1e6}; bounds 0 / 0.0 / negative; knots in (0,100), (-100,100) or distinct ints, flat first piece) x "
-        "containers (list / tuple / ndarray for lists and ranges); draws recorded with +-8 sigma normals, exponentials of 40x the "
+        "{0, 0.01, 1, 5, 10, 1e6}; bounds 0 / 0.0 / negative; knots in (0,100), (-100,100) or distinct ints, flat first piece; knot values "
+        "listed in increasing order or (45%) in DEcreasing order -- incl. the literal profiles [0, -1, -5, -20] (heights below the "
+        "surface) and [3, 2, 1, 0] (the release.yaml example reversed), flat last piece, non-positive knots; the cdf always strictly "
+        "increasing from 0 to 1) x containers (list / tuple / ndarray for lists and ranges, and for the knots and / or the cdf of a "
+        "piecewise specification); draws recorded with +-8 sigma normals, exponentials of 40x the "
         "mean, u=0 and u=1-2^-53 injected (also when the code asks numpy's random_sample / random / standard_normal / "
         "standard_exponential); 30% of the cases call get_attr twice with the same specification object; piecewise knots probed "
-        "with a constant u = cdf_k (num 3) and with a different cdf_k per particle (num in {1,2,3,5,17}). Whole tables (the attribute "
+        "with a constant u = cdf_k (num 3) and with a different cdf_k per particle (num in {1,2,3,5,17}); every piecewise call is also judged draw by draw against "
+        "its recorded rand() values (a draw equal to cdf_k gives knot_k, a draw between cdf_j and cdf_j+1 a value between knot_j "
+        "and knot_j+1, monotone from the first knot to the last). Piecewise with many particles: num = 4000 with numpy's own "
+        "generator (seeded, nothing injected) through get_attr / make_single_release / make_release with `seed`, strictly "
+        "increasing or strictly decreasing knots (float or int): share of the values between consecutive knots against the cdf "
+        "differences (+-0.06, false alarm < 3.1e-10 per run). Whole tables (the attribute "
         "columns of the returned table, judged by the same oracles): 1..3 release groups x num in {1,2,3,5,17} per group x 1..4 "
         "attributes per group of any of the forms above, named depth / stage / batch / speed / w / region / farmid / age / name, "
         "each an implicit attribute or an entry of the `attrs` block x location kind (point, polygon, several polygons, metric "
@@ -38,7 +47,7 @@ RULE = ("every attribute form (scalar incl. numpy scalars; list of length num wi
         "date or date range per group (groups on distinct days, so that their rows are contiguous); same tail injection; 20% "
         "second call with the same configuration object; a single piecewise attribute of a table probed with constant u = cdf_k. "
         "Piecewise with a history: families of 2..3 piecewise specifications with the same knots and different cdf (or the same cdf "
-        "and different knots; knots as list / tuple / ndarray; optionally the first once more at the end) sampled in succession "
+        "and different knots, each member's knots increasing or decreasing; knots as list / tuple / ndarray; optionally the first once more at the end) sampled in succession "
         "in one process -- successive get_attr calls (per-particle u = own cdf_k, a cdf value of another member, or any u), several "
         "attributes of one group, the same or different attributes of several groups, successive make_release calls (constant "
         "u) -- each judged against its own cdf. "
@@ -46,13 +55,18 @@ RULE = ("every attribute form (scalar incl. numpy scalars; list of length num wi
 ASSUMPTIONS = ["scipy InterpolatedUnivariateSpline(k=1) is modelled as linear interpolation (checked to 1e-12 on every run)",
                "the optional piecewise key `degree` (documented in release.yaml) is not read by the code (k=1 is hard-coded); the model "
                "is linear interpolation for every degree, and the bounds / cumulative-probability oracles are applied unchanged",
+               "release.yaml constrains the cdf of a piecewise specification (from 0 to 1, strictly increasing) and not the order of "
+               "the knot values: knots listed in decreasing order are taken as documented input, cdf_k being the probability "
+               "accumulated when knot_k is reached, in the listed direction (P(value >= knot_k) = cdf_k); knot lists that are neither "
+               "non-decreasing nor non-increasing are not generated (no reading of 'cumulative probability for each knot value' "
+               "covers them)",
                "tuples / numpy arrays / numpy scalars are taken as the Python-API spellings of 'list of length num', '[low, high]' "
                "and 'scalar' (get_attr dispatches on __len__, not on the type list)"]
 SITE = "ladim_plugins/release/makrel.py::get_distribution"
 SITE_ATTR = "ladim_plugins/release/makrel.py::get_attr"
 
 KINDS = ["const", "list", "range", "gauss", "gauss_b", "gauss_lo", "gauss_hi", "exp", "exp_max", "piece", "callable", "dotted",
-         "callable_list", "callable_obj", "dotted_deep"]
+         "callable_list", "callable_obj", "dotted_deep", "callable_unordered", "dotted_unordered"]
 STOCHASTIC = {"range": "uniform", "piece": "rand"}
 
 
@@ -69,6 +83,17 @@ def probe_count(*args, **kwargs):
     """target of the dotted name `<this module>.probe_count` (two dots): records how it was called"""
     PROBE_CALLS.append((args, dict(kwargs)))
     return _probe_values(*args, **kwargs)
+
+
+def _zigzag(n):
+    """values that are not in increasing (nor decreasing) order for n >= 3, with a repeated value for n >= 6"""
+    return [(-1) ** i * (1.5 + 0.25 * (i % 5)) for i in range(n)]
+
+
+def probe_zigzag(*args, **kwargs):
+    """target of the dotted name `<this module>.probe_zigzag`: records how it was called, returns values in no particular order"""
+    PROBE_CALLS.append((args, dict(kwargs)))
+    return _zigzag(*args, **kwargs)
 
 
 class CountProbe:
@@ -131,6 +156,14 @@ def _container(rng, xs, tags, what):
     return list(xs)
 
 
+def knots_order(knots):
+    """"ascending" (non-decreasing; what every piecewise case had before), "descending" (non-increasing, not constant)"""
+    kn = [float(x) for x in knots]
+    if all(a <= b for a, b in zip(kn, kn[1:])): return "ascending"
+    if all(a >= b for a, b in zip(kn, kn[1:])): return "descending"
+    return "unordered"
+
+
 def gen_piece(rng, tags):
     n = rng.randrange(2, 6)
     cdf = sorted(set([0.0, 1.0] + [round(rng.random(), 3) for _ in range(n - 2)]))
@@ -147,13 +180,37 @@ def gen_piece(rng, tags):
         knots[1:2] = [knots[0]]     # flat piece
         knots = sorted(knots)
         tags.append("piece.flat")
+    if rng.random() < 0.45:
+        # release.yaml constrains the cdf only ("must start with 0 and end with 1, must be strictly monotonically increasing");
+        # the knots are "depth values", one per cumulative probability.  A profile listed from the surface downwards as negative
+        # heights (knots [0, -1, -5, -20]) or a depth profile listed from the bottom upwards has DEcreasing knot values: cdf_k is
+        # still the probability accumulated when knot_k is reached
+        lit = rng.random()
+        if lit < 0.2 and len(cdf) == 4:
+            # two literal profiles: heights below the surface, and the knots of the release.yaml example the other way round
+            tags[:] = [t for t in tags if t not in ("piece.flat", "piece.knots=signed", "piece.knots=int")]
+            knots = [0, -1, -5, -20] if lit < 0.1 else [3, 2, 1, 0]
+            tags.append("piece.knots=int")
+            tags.append("piece.knots=descending.surface_downwards" if lit < 0.1 else "piece.knots=descending.release_yaml_reversed")
+        else:
+            knots = knots[::-1]
+        tags.append("piece.knots=descending")
+        if knots[0] <= 0 and knots[-1] < 0: tags.append("piece.knots=descending.all_nonpositive")
+    toks = "4 %s %s" % (L(knots), L(cdf))
+    c = rng.choice(["list", "list", "list", "list", "tuple", "ndarray"])
+    if c != "list":
+        # Python-API spellings of the two lists (both are handed to numpy by every reading of the documentation)
+        which = rng.choice(["knots", "cdf", "both"])
+        if which in ("knots", "both"): knots = tuple(knots) if c == "tuple" else np.array(knots)
+        if which in ("cdf", "both"): cdf = tuple(cdf) if c == "tuple" else np.array(cdf)
+        tags.append("piece.container=%s" % c)
     d = dict(distribution="piecewise", knots=knots, cdf=cdf)
     if rng.random() < 0.4:
         # documented optional key (release.yaml: "degree: 1  # (Optional) Degree of spline. Defaults to 1"); a spline of degree k
         # needs more than k points
         d["degree"] = rng.choice([k for k in (1, 2, 3) if k < len(cdf)])
         tags.append("piece.degree=%d" % d["degree"])
-    return d, "4 %s %s" % (L(knots), L(cdf))
+    return d, toks
 
 
 def gen(rng, num, tags=None):
@@ -225,6 +282,11 @@ def gen(rng, num, tags=None):
         return k, (lambda n: [0.75 * i - 1.0 for i in range(n)]), "5 " + L([0.75 * i - 1.0 for i in range(num)])
     if k == "callable_obj":
         return k, CountProbe(), "5 " + L([-10.0 + 0.5 * i for i in range(num)])
+    if k == "callable_unordered":
+        # what the function returns is the attribute, particle by particle: values in no particular order (with repeats)
+        return k, (lambda n: _zigzag(n)), "5 " + L(_zigzag(num))
+    if k == "dotted_unordered":
+        return k, __name__ + ".probe_zigzag", "5 " + L(_zigzag(num))
     if k == "dotted_deep":
         # a dotted name with more than one dot: module path `harness.c04`, function `probe_count`
         return k, __name__ + ".probe_count", "5 " + L([10.0 + 0.5 * i for i in range(num)])
@@ -237,9 +299,13 @@ CALLABLE_WANT = {
     "callable_obj": lambda num: [-10.0 + 0.5 * i for i in range(num)],
     "dotted": lambda num: [float(i) for i in range(num)],
     "dotted_deep": lambda num: [10.0 + 0.5 * i for i in range(num)],
+    "callable_unordered": lambda num: [(-1) ** i * (1.5 + 0.25 * (i % 5)) for i in range(num)],
+    "dotted_unordered": lambda num: [(-1) ** i * (1.5 + 0.25 * (i % 5)) for i in range(num)],
 }
+PROBED = ("dotted_deep", "dotted_unordered")        # dotted names whose target records its calls in PROBE_CALLS
 CALLABLE_TEXT = {"callable": "<lambda n: arange(n)*2>", "callable_list": "<lambda n: [0.75*i - 1 for i in range(n)]>",
-                 "callable_obj": "<callable object n -> 0.5*arange(n) - 10>"}
+                 "callable_obj": "<callable object n -> 0.5*arange(n) - 10>",
+                 "callable_unordered": "<lambda n: [(-1)**i * (1.5 + 0.25*(i % 5)) for i in range(n)]>"}
 
 
 def is_stochastic(kind, num):
@@ -283,11 +349,26 @@ def judge(ctx, kind, v, num, out, draws, cs, probe_calls=None, site=SITE):
             ctx.oracle(all(x <= v["max"] for x in out), "C04.exponential.max_exceeded", site,
                        "max=%r but values %r" % (v["max"], [x for x in out if x > v["max"]][:3]), cs)
     elif kind == "piece":
-        k0, kn = v["knots"][0], v["knots"][-1]
+        # "within the knot range": between the smallest and the largest knot (the first and the last one for knots listed in
+        # increasing order, the last and the first one for knots listed in decreasing order)
+        kn_ = [float(x) for x in v["knots"]]
+        k0, kn = min(kn_), max(kn_)
+        desc = knots_order(kn_) == "descending"
         ctx.oracle(len(out) == num and all(k0 - 1e-9 <= x <= kn + 1e-9 for x in out), "C04.piecewise.range", site, "values %r knots %r" % (out, v["knots"]), cs)
         order = np.argsort(draws, kind="stable")
         xs = np.array(out)[order]
-        ctx.oracle(bool(np.all(np.diff(xs) >= -1e-9)), "C04.piecewise.not_monotone", site, "not monotone in the draw", cs)
+        # the value moves from the first knot to the last one as the accumulated probability grows
+        ctx.oracle(bool(np.all((-np.diff(xs) if desc else np.diff(xs)) >= -1e-9)), "C04.piecewise.not_monotone", site,
+                   "not monotone in the draw (%s from the first knot to the last one)" % ("decreasing" if desc else "increasing"), cs)
+        if len(draws) == num and len(out) == num:
+            # "follow the given cumulative probabilities", draw by draw (the draws are the recorded rand() values, u = 0 and
+            # u = 1 - 2^-53 among them): a draw equal to a cdf value gives its knot, a draw between two cdf values gives a value
+            # between their knots.  Independent of the implementation: comparisons with the written specification only
+            cdf_ = [float(c) for c in v["cdf"]]
+            ctx.oracle(all(close(x, kn_[cdf_.index(u)], 1e-9, 1e-9) for x, u in zip(out, draws) if u in cdf_), "C04.piecewise.cdf_knots", site,
+                       "a draw u = cdf_k should give knot_k: draws %r, values %r" % (draws, out), cs)
+            ctx.oracle(all(piece_bracket_ok(v, u, x) for x, u in zip(out, draws)), "C04.piecewise.cdf_bracket", site,
+                       "a draw between cdf_j and cdf_j+1 should give a value between knot_j and knot_j+1: draws %r, values %r" % (draws, out), cs)
     elif kind in CALLABLE_WANT:
         ctx.oracle(out == CALLABLE_WANT[kind](num), "C04.callable.count", site, "got %r" % out, cs)
         if probe_calls is not None:
@@ -393,7 +474,8 @@ def gen_table_group(rng, g, day, num, yamlable, state, tags):
             t = []
             kind, v, _ = gen(rng, num, t)
             if yamlable and kind.startswith("callable"): continue
-            if kind == "dotted_deep":
+            if kind in PROBED:
+                # (one recording dotted name per table: its calls are told apart by nothing but the shared record)
                 if state["dotted_deep"]: continue
                 state["dotted_deep"] = True
             break
@@ -431,8 +513,14 @@ def table_draws(kind, v0, num, out, log):
         cands = [e[3].tolist() for e in log if e[0] == "rand" and tuple(e[2]) == (num,)]
         if not cands: return None
         if len(out) != num: return cands[0]
-        mono = lambda z: bool(np.all(np.diff(np.array(out)[np.argsort(z, kind="stable")]) >= -1e-9))
-        return next((z for z in cands if mono(z)), cands[0])
+        sgn = -1.0 if knots_order(v0["knots"]) == "descending" else 1.0
+        mono = lambda z: bool(np.all(sgn * np.diff(np.array(out)[np.argsort(z, kind="stable")]) >= -1e-9))
+        cdf_, kn_ = [float(c) for c in v0["cdf"]], [float(k) for k in v0["knots"]]
+        # (every draw-based oracle of judge(): a vector of position draws that happens to be monotone must not be taken for the
+        # attribute's own draws when another recorded vector explains the column)
+        expl = lambda z: mono(z) and all(piece_bracket_ok(v0, u, x) for x, u in zip(out, z)) \
+            and all(close(x, kn_[cdf_.index(u)], 1e-9, 1e-9) for x, u in zip(out, z) if u in cdf_)
+        return next((z for z in cands if expl(z)), next((z for z in cands if mono(z)), cands[0]))
     return []
 
 
@@ -566,7 +654,7 @@ def run_tables(ctx, mk):
                             draws = []
                         acs = dict(cs, attribute=s["name"], kind=s["kind"], spec=_spec_text(s["kind"], s["v0"]), num=G["num"], where=s["where"],
                                    column=[x if isinstance(x, (int, float, str)) or x is None else repr(x) for x in col[lo:hi]], draws=draws)
-                        probe_calls = list(PROBE_CALLS) if s["kind"] == "dotted_deep" else (list(s["v"].calls) if s["kind"] == "callable_obj" else None)
+                        probe_calls = list(PROBE_CALLS) if s["kind"] in PROBED else (list(s["v"].calls) if s["kind"] == "callable_obj" else None)
                         judge(ctx, s["kind"], s["v0"], G["num"], out, draws, acs, probe_calls, site=SITE_TABLE)
                         if knot is not None and s is knot[0]:
                             # cumulative probabilities, as in the get_attr cases above (same tolerance: the spline is not exact at the knots)
@@ -586,18 +674,22 @@ def gen_piece_family(rng, tags):
     n = len(v["cdf"])
     share = rng.choice(["knots", "knots", "knots", "cdf"])
     tags.append("piecewise.history.shared_%s" % share)
+    if knots_order(v["knots"]) == "descending": tags.append("piecewise.history.first_knots=descending")
     fam = [v]
     for _ in range(rng.randrange(1, 3)):
         w = copy.deepcopy(v)
         if share == "knots":
             while True:
                 cdf = sorted(set([0.0, 1.0] + [round(rng.random(), 3) for _ in range(n - 2)]))
-                if len(cdf) == n and all(cdf != f["cdf"] for f in fam): break
+                if len(cdf) == n and all(cdf != list(f["cdf"]) for f in fam): break
             w["cdf"] = cdf
         else:
             while True:
                 knots = sorted(rng.uniform(-100, 100) for _ in range(n))
-                if all(knots != list(f["knots"]) for f in fam): break
+                if all(knots != list(f["knots"]) and knots[::-1] != list(f["knots"]) for f in fam): break
+            if rng.random() < 0.5:
+                # the same cdf over knots listed the other way round (a member may so differ from the others in knot order too)
+                knots = knots[::-1]; tags.append("piecewise.history.member_knots=descending")
             w["knots"] = knots
         if "degree" in w and rng.random() < 0.5: del w["degree"]
         c = rng.choice(["list", "list", "tuple", "ndarray"])
@@ -608,10 +700,11 @@ def gen_piece_family(rng, tags):
 
 
 def piece_bracket_ok(v0, u, x):
-    """P(value <= knot_j) = cdf_j for every j: a draw u with cdf_j <= u <= cdf_j+1 gives a value between knot_j and knot_j+1
-    (1e-9: the spline evaluation is not exact, as for the knot oracle)"""
+    """cdf_j is the probability accumulated when knot_j is reached, for every j: a draw u with cdf_j <= u <= cdf_j+1 gives a value
+    between knot_j and knot_j+1 -- knot_j <= x <= knot_j+1 for knots listed in increasing order (P(value <= knot_j) = cdf_j), the
+    other way round for knots listed in decreasing order (1e-9: the spline evaluation is not exact, as for the knot oracle)"""
     cdf, kn = list(v0["cdf"]), list(v0["knots"])
-    return any(cdf[j] <= u <= cdf[j + 1] and kn[j] - 1e-9 <= x <= kn[j + 1] + 1e-9 for j in range(len(cdf) - 1))
+    return any(cdf[j] <= u <= cdf[j + 1] and min(kn[j], kn[j + 1]) - 1e-9 <= x <= max(kn[j], kn[j + 1]) + 1e-9 for j in range(len(cdf) - 1))
 
 
 def run_piece_history(ctx, mk):
@@ -679,6 +772,61 @@ def run_piece_history(ctx, mk):
                                 dict(base, names=names, release=ci, group=g, attribute=nm, column=list(table[nm])))
 
 
+MASS_N = 4000
+MASS_TOL = 0.06
+
+
+def run_piece_mass(ctx, mk):
+    """"follow the given cumulative probabilities" for many particles and numpy's own generator (nothing recorded, nothing injected):
+    the share of the values between knot_j and knot_j+1 is cdf_j+1 - cdf_j.  Knots strictly increasing or strictly decreasing, so
+    that the segments between consecutive knots overlap in single points only (probability zero).
+
+    False-alarm bound: under the specified distribution the count of a segment is Binomial(N, p_j); Hoeffding gives
+    P(|count/N - p_j| > t) <= 2 exp(-2 N t^2) = 2 exp(-28.8) < 6.3e-13 for N = 4000, t = 0.06 (the spline's evaluation error of
+    ~1e-13 moves a value across a knot with probability < 1e-10 per value, far inside the slack).  At most 4 segments x 120 cases
+    (thorough; 12 quick) = 480 tests: < 3.1e-10 per run."""
+    for c in range(ctx.n(12, 120)):
+        n = ctx.rng.randrange(2, 6)
+        while True:
+            cdf = sorted(set([0.0, 1.0] + [round(ctx.rng.random(), 3) for _ in range(n - 2)]))
+            if len(cdf) == n: break
+        form = ctx.rng.choice(["float", "int"])
+        knots = sorted(ctx.rng.sample(range(-50, 100), n)) if form == "int" else sorted(round(ctx.rng.uniform(-100, 100), 3) for _ in range(n))
+        if len(set(knots)) < n: continue
+        order = ctx.rng.choice(["ascending", "descending", "descending"])
+        if order == "descending": knots = knots[::-1]
+        if c == 0: knots, cdf, order = [0, -1, -5, -20], [0.0, 0.5, 0.8, 1.0], "descending"      # heights below the surface
+        v = dict(distribution="piecewise", knots=knots, cdf=cdf)
+        v0 = copy.deepcopy(v)
+        entry = ctx.rng.choice(["get_attr", "make_release.seed", "make_single_release"])
+        seed = ctx.sub_seed()
+        ctx.case(key=("piece_mass", repr(v0), entry, seed), nontrivial=True)
+        ctx.branch("piecewise.mass"); ctx.branch("piecewise.mass.knots=%s" % order); ctx.branch("piecewise.mass.%s" % entry)
+        cs = dict(spec=v0, num=MASS_N, entry=entry, numpy_seed=seed)
+        state = np.random.get_state()
+        try:
+            np.random.seed(seed)
+            if entry == "get_attr":
+                out = mk.get_attr(v, MASS_N)
+            else:
+                conf = dict(num=MASS_N, date="2000-01-01 00:00:00", location=[5, 60], w=v)
+                out = mk.make_release(dict(conf, seed=seed))["w"] if entry == "make_release.seed" else mk.make_single_release(conf)["w"]
+        finally:
+            np.random.set_state(state)
+        out = table_column(out)
+        if not ctx.oracle(len(out) == MASS_N, "C04.piecewise.count", SITE, "%d values for %d particles" % (len(out), MASS_N), cs):
+            continue
+        lo, hi = min(knots), max(knots)
+        ctx.oracle(all(lo - 1e-9 <= x <= hi + 1e-9 for x in out), "C04.piecewise.range", SITE,
+                   "values outside the knot range [%r, %r]: %r" % (lo, hi, [x for x in out if not lo - 1e-9 <= x <= hi + 1e-9][:3]), cs)
+        xs = np.array(out)
+        shares = [float(np.mean((xs >= min(a, b)) & (xs <= max(a, b)))) for a, b in zip(knots, knots[1:])]
+        want = [b - a for a, b in zip(cdf, cdf[1:])]
+        ctx.oracle(all(abs(s_ - w_) <= MASS_TOL for s_, w_ in zip(shares, want)), "C04.piecewise.cdf_mass", SITE,
+                   "share of %d values between consecutive knots %r: observed %r, specified (cdf differences) %r" % (MASS_N, knots, [round(x, 4) for x in shares], [round(x, 4) for x in want]),
+                   dict(cs, observed_shares=shares, specified_shares=want))
+
+
 def run(ctx):
     mk = importlib.import_module("ladim_plugins.release.makrel")
     drv = Driver()
@@ -703,7 +851,7 @@ def run(ctx):
         draws = rec.log[0][3].tolist() if rec.log else []
         cs = dict(cs, draws=draws, out=out)
         if second: cs["second_call_with_same_object"] = True
-        probe_calls = list(PROBE_CALLS) if kind == "dotted_deep" else (list(v.calls) if kind == "callable_obj" else None)
+        probe_calls = list(PROBE_CALLS) if kind in PROBED else (list(v.calls) if kind == "callable_obj" else None)
         judge(ctx, kind, v0, num, out, draws, cs, probe_calls)
         exp_sched = expected_schedule(kind, num)
         # model
@@ -743,6 +891,7 @@ def run(ctx):
             with RngRecorder(0, lambda kind, p, arr, _c=ck: np.full(arr.shape, _c)):
                 out = mk.get_attr(v, 3)
             ctx.case(key=("piece_knot", repr(v), ck), nontrivial=True); ctx.branch("piecewise.knot")
+            ctx.branch("piecewise.knot.knots=%s" % knots_order(v["knots"]))
             ctx.oracle(all(close(x, kk, 1e-9, 1e-9) for x in out), "C04.piecewise.cdf_knots", SITE,
                        "u=cdf=%r should give knot %r, got %r" % (ck, kk, out), dict(spec=v))
     # the same per particle: particle i draws u_i = cdf_{k_i} (a different knot for each particle, in random order) and must get
@@ -761,6 +910,7 @@ def run(ctx):
         want = [v0["knots"][k] for k in ks]
         ctx.oracle(len(out) == num and all(close(x, w, 1e-9, 1e-9) for x, w in zip(out, want)), "C04.piecewise.cdf_knots", SITE,
                    "particle i draws u_i = cdf[k_i] (k = %r): expected knots %r, got %r" % (ks, want, out), dict(spec=v0, num=num, draws=us.tolist(), out=out))
+    run_piece_mass(ctx, mk)
     run_tables(ctx, mk)
     run_piece_history(ctx, mk)
     if drv.available:
